@@ -1081,6 +1081,9 @@ class PPermut(Pattern):
                 values.append(v)
                 n += 1
 
+            if not values:
+                raise StopIteration
+
             self.permutations = list(itertools.permutations(values))
             self.permindex = 0
             self.pos = 0
